@@ -65,12 +65,23 @@ DerivedOf(n) ==
     IN UNION {{Mk(KK, v, base) : v \in Vs(KK), base \in {0, 1, 2}} : KK \in keeps}
 Paths == P1 \cup S2 \cup S3 \cup UNION {DerivedOf(n) : n \in NS}
 
-XCase == [m |-> "lxpath", h |-> h, root |-> Root,
+(* in-place edits: a node that sits in a sequence is removed (replace_with(None)); the paths every remaining node must
+   carry after calculate_xpath() has been run before and again after the edit *)
+InSeq(n) == n # Root /\ ParentInfo(h, Root, n)[3] >= 0
+Without(n) == LET pi == ParentInfo(h, Root, n)
+                  seq == h[pi[1]].k[pi[2]]
+              IN [h EXCEPT ![pi[1]].k[pi[2]] = SubSeq(seq, 1, pi[3]) \o SubSeq(seq, pi[3] + 2, Len(seq))]
+Edits == {[n |-> n, xpaths |-> [m \in Nodes(Without(n), Root) |-> PathOf(Without(n), Root, m)]] : n \in {x \in NS : InSeq(x)}}
+
+XCase == [m |-> "lxpath", h |-> h, root |-> Root, edits |-> Edits,
           xpaths |-> [n \in NS |-> PathOf(h, Root, n)],
           paths |-> {[p |-> p, found |-> FindAll(h, Root, p)] : p \in Paths}]
 
 EmitTrav == Ok => PrintT(ToJson(TravCase))
 EmitXPath == Ok => PrintT(ToJson(XCase))
+(* the edits alone (no path sets), for trees one object larger than the path cases afford *)
+EmitEdits == Ok /\ Edits # {} => PrintT(ToJson([m |-> "lxpath", h |-> h, root |-> Root, edits |-> Edits,
+                                                xpaths |-> [n \in NS |-> PathOf(h, Root, n)], paths |-> {}]))
 
 (* MC: legacy traversal = C05 traversal shifted by the start node *)
 ShiftLaw == Ok => \A P \in PruneSets :
